@@ -53,6 +53,12 @@ Expect(api, ctx, v) ==
     \* traffic class octet = DSCP (upper 6 bits) and ECN (lower 2 bits); ctx[1] = traffic class before; the setter changes only its own bits
     [] api = "ipv6.set_dscp" -> Ok(v * 4 + (ctx[1] % 4))
     [] api = "ipv6.set_ecn" -> Ok((ctx[1] \div 4) * 4 + v)
+    \* IGMPv3 query, byte 8 = Resv (4 bits) | S (1 bit) | QRV (3 bits); ctx[1] = the byte before; each setter changes only its own bits
+    [] api = "igmp.set_qrv" -> Ok((ctx[1] \div 8) * 8 + v)
+    [] api = "igmp.set_s_flag" -> Ok((ctx[1] \div 16) * 16 + v * 8 + (ctx[1] % 8))
+    [] api = "igmp.set_flags" -> Ok((v % 16) * 16 + (ctx[1] % 16))
+    \* RFC 3376 4.1.1 max resp code: below 128 the value itself, else (mant | 0x10) << (exp + 3)
+    [] api = "igmp.max_resp_10th" -> Ok(IF v < 128 THEN v ELSE ((v % 16) + 16) * 2 ^ (((v \div 16) % 8) + 3))
     \* IPv4 payload length derived from the total length v and the header length (ctx[1] = options length)
     [] api = "ipv4.payload_len" -> IF v >= 20 + ctx[1] THEN Ok(v - 20 - ctx[1]) ELSE Rej({<<"LenError", 20 + ctx[1], v>>})
 
